@@ -558,6 +558,12 @@ class ExcelCompiler:
             try:
                 if addr in self.cell_map:
                     walk_dependents(self.cell_map[addr])
+                    if isinstance(self.cell_map[addr], _CellRange):
+                        # formulas can also read single cells of an input range
+                        for member in self.cell_map[addr]:
+                            member_cell = self.cell_map.get(member.address)
+                            if member_cell in self.dep_graph:
+                                walk_dependents(member_cell)
                     msg = ''
                 else:
                     msg = 'warning', f'Address {addr} not found in cell_map'
